@@ -12,6 +12,9 @@ for d in cmd/c*/; do
   if [ -x "$d/overlay.sh" ]; then
     "$d/overlay.sh" "build/overlay-$id.json" >"build/overlay-$id.log" 2>&1 && overlay=(-overlay "build/overlay-$id.json")
   fi
-  go build "${overlay[@]}" -o "build/bin/$id" "./$d" || rc=1
+  case "$id" in
+    *race) go build -race -o "build/bin/$id" "./$d" || rc=1 ;;
+    *) go build "${overlay[@]}" -o "build/bin/$id" "./$d" || rc=1 ;;
+  esac
 done
 exit $rc
